@@ -44,14 +44,32 @@ def run(chk: Check) -> None:
     ok = len(stores) == 1 and norm(stores[0].value) == 'key' and any(isinstance(l, ast.For) and norm(l.iter) == f'{t2.node.args.kwarg.arg}.items()' and norm(l.target) == '(key, awaitable)' or
                                                                     (isinstance(l, ast.For) and norm(l.iter) == f'{t2.node.args.kwarg.arg}.items()') for l in ast.walk(t2.node))
     chk.ob('DOM-barrier-wait', t2, ok, 'to_context registers every (key, awaitable) pair it is given', kind='registers-all')
-    res = [n for n in ast.walk(t2.node) if isinstance(n, ast.IfExp) and 'isinstance(awaitable, processes.Process)' in norm(n.test) and norm(n.body) == 'awaitable.future()' and norm(n.orelse) == 'awaitable']
-    chk.ob('DOM-barrier-wait', t2, len(res) == 1 and bool(stores) and norm(stores[0].targets[0].slice) == 'resolved_awaitable', 'a child process is awaited through its future', kind='process-to-future')
+    from ..rules import conditional_values
+
+    def process_to_future(f, store_key: str, item: str) -> bool:
+        """The key under which an awaitable is tracked is its future if it is a Process, else the awaitable itself."""
+        fff = chk.ctx.facts.analyse(f)
+        vals = conditional_values(fff, store_key)
+        fut = [(fs, v) for fs, v in vals if norm(v) == f'{item}.future()']
+        same = [(fs, v) for fs, v in vals if norm(v) == item]
+        if len(vals) != len(fut) + len(same) or not fut or not same:
+            return False
+        is_proc = lambda fs: any(a[0] == 'isinst' and a[1] == item and a[2].endswith('processes.Process') for a in fs)
+        not_proc = lambda fs: any(a[0] == 'F' and a[1].startswith(f'isinstance({item}, ') and a[1].endswith('Process)') for a in fs)
+        return all(is_proc(fs) for fs, _ in fut) and all(not_proc(fs) for fs, _ in same)
+
+    skey = norm(stores[0].targets[0].slice) if stores else ''
+    chk.ob('DOM-barrier-wait', t2, bool(stores) and process_to_future(t2, skey, 'awaitable'), 'a child process is awaited through its future (anything else as it is)', kind='process-to-future')
     wi = prog.func('workchains.Waiting.__init__')
     loop = [l for l in ast.walk(wi.node) if isinstance(l, ast.For)]
     aparam = wi.params[4] if len(wi.params) > 4 else 'awaiting'
     ok = len(loop) == 1 and aparam in norm(loop[0].iter) and '.items()' in norm(loop[0].iter) and any(
         isinstance(s, ast.Assign) and isinstance(s.targets[0], ast.Subscript) and norm(s.targets[0].value) == 'self._awaiting' and norm(s.value) == 'key' for s in loop[0].body)
     chk.ob('DOM-barrier-wait', wi, ok, 'the waiting state tracks every awaitable it was given', kind='tracks-all')
+    wstores = [s_ for l in loop for s_ in ast.walk(l) if isinstance(s_, ast.Assign) and isinstance(s_.targets[0], ast.Subscript) and norm(s_.targets[0].value) == 'self._awaiting']
+    if wstores and isinstance(loop[0].target, ast.Tuple):
+        item = norm(loop[0].target.elts[0])
+        chk.ob('DOM-barrier-wait', wi, process_to_future(wi, norm(wstores[0].targets[0].slice), item), 'it tracks a child process through its future', kind='process-to-future')
     sup = [c for c in calls_in_func(wi, '__init__')]
     ok = len(sup) == 1 and [norm(a) for a in sup[0].args] == [wi.params[1], wi.params[2], wi.params[3], aparam]
     chk.ob('DOM-barrier-wait', wi, ok, 'the continuation, message and awaitables are handed to the base WAITING state unchanged', kind='super-init')
